@@ -387,7 +387,7 @@ func c10R4(c *Ctx) {
 // sub-workflows keyed by file name, say) makes the graph built for one workflow text depend on earlier preparations.
 func c10R5(c *Ctx) {
 	const rule = "C10.R5"
-	c.explain("C10.R5 no function of the parse/prepare paths stores into a field, updates a map or calls a mutating sync.Map/atomic method of an engine-lifetime object (types implementing step.Provider, the step registry, workflow.executor, the engine) outside the functions that construct those objects: the graph built for a workflow depends on its text and context only, not on earlier preparations")
+	c.explain("C10.R5 no function of the parse/prepare paths stores into a field, updates a map or calls a mutating sync.Map/atomic method of an engine-lifetime object (types implementing step.Provider, the step registry, workflow.executor, the engine) or of a package-level variable, outside the functions that construct those objects: the graph built for a workflow depends on its text and context only, not on earlier preparations")
 	longLived := map[*types.TypeName]bool{}
 	if n := c.namedType(pkgStep, "Provider"); n != nil {
 		if it, ok := n.Underlying().(*types.Interface); ok {
@@ -454,6 +454,10 @@ func c10R5(c *Ctx) {
 			var target ssa.Value
 			switch x := r.I.(type) {
 			case *ssa.Store:
+				if gl, isGlobal := x.Addr.(*ssa.Global); isGlobal && c.inRepoPkg(gl) && fn.Name() != "init" {
+					what, target = "stores into the package-level variable "+gl.Name(), gl
+					break
+				}
 				fa, ok := x.Addr.(*ssa.FieldAddr)
 				if !ok || !isLL(fa.X) {
 					return
@@ -463,6 +467,12 @@ func c10R5(c *Ctx) {
 				}
 				what, target = "stores into field "+fieldAddrVar(fa).Name(), fa.X
 			case *ssa.MapUpdate:
+				if u, ok := x.Map.(*ssa.UnOp); ok {
+					if gl, isGlobal := u.X.(*ssa.Global); isGlobal && c.inRepoPkg(gl) {
+						what, target = "updates the package-level map "+gl.Name(), gl
+						break
+					}
+				}
 				if !fromLL(x.Map) {
 					return
 				}
@@ -482,6 +492,10 @@ func c10R5(c *Ctx) {
 				}
 				if len(cc.Args) == 0 {
 					return
+				}
+				if gl, isGlobal := cc.Args[0].(*ssa.Global); isGlobal && c.inRepoPkg(gl) {
+					what, target = "calls "+callee.Name()+" on the package-level variable "+gl.Name(), gl
+					break
 				}
 				fa, ok := cc.Args[0].(*ssa.FieldAddr)
 				if !ok || !isLL(fa.X) {
